@@ -348,12 +348,20 @@ def gen_consts():
         if not m: return None
         e = match_brace(rd, m.end() - 1)
         body = rd[m.end():e]
-        m2 = re.search(r"for i in 0\.\.(\d+)", body)
-        return int(m2.group(1)) if m2 else None
-    for fn, nm in (("read_varint", "varint_read_iters"), ("read_varlong", "varlong_read_iters")):
+        # the loop forms the translator understands; anything else is "not found" (the models then use the
+        # protocol's own bounds 5 / 10, C09's tie theorem fails, and the codec correspondence decides)
+        m2 = re.search(r"for \w+ in 0\s*\.\.\s*(=?)\s*(\d+)", body)
+        if m2: return int(m2.group(2)) + (1 if m2.group(1) else 0)
+        m2 = re.search(r"while (\w+) < (\d+) \* 7\b", body) or re.search(r"while (\w+) < 7 \* (\d+)\b", body)
+        if m2 and re.search(re.escape(m2.group(1)) + r"\s*\+=\s*7\b", body): return int(m2.group(2))
+        m2 = re.search(r"while (\w+) < (\d+)\b", body)
+        if m2 and re.search(re.escape(m2.group(1)) + r"\s*\+=\s*7\b", body): return (int(m2.group(2)) + 6) // 7
+        if m2 and re.search(re.escape(m2.group(1)) + r"\s*\+=\s*1\b", body): return int(m2.group(2))
+        return None
+    for fn, nm, dflt in (("read_varint", "varint_read_iters", 5), ("read_varlong", "varlong_read_iters", 10)):
         b = loop_bound(fn)
         info[nm] = b
-        out.append("Definition %s : nat := %s%%nat." % (nm, b if b is not None else 0))
+        out.append("Definition %s : nat := %s%%nat." % (nm, b if b is not None else dflt))
     out.append("Definition %s_found : bool := %s." % ("read_iters", "true" if None not in (info["varint_read_iters"], info["varlong_read_iters"]) else "false"))
     conn = strip_comments(open(os.path.join(REPO, "passage-protocol/src/connection.rs")).read())
     def const_expr(src, name):
